@@ -118,6 +118,35 @@ def _collect_norm_facts() -> dict:
     return facts
 
 
+def _parse_paths_fact() -> bool:
+    """`shared.parse_paths` (behind build(paths=…), the CLI and pyproject.toml): does it hand on the *resolved* path
+    (`..` and symbolic links removed) or the path as spelled, made absolute?  Probed on a scratch directory."""
+    import os
+    import shutil
+    import tempfile
+    from _pytask.shared import parse_paths
+    tmp = Path(tempfile.mkdtemp(prefix="verif-pp-"))
+    try:
+        real = Path(os.path.realpath(tmp))
+        (real / "a" / "b").mkdir(parents=True)
+        (real / "lnk").symlink_to("a")
+        verdicts = set()
+        for sp, want in ((real / "a" / "b" / "..", real / "a"), (real / "a" / "." / "b" / ".." / "b", real / "a" / "b"),
+                         (real / "lnk" / "b", real / "a" / "b")):
+            got = parse_paths([sp])
+            if got == [want]:
+                verdicts.add(True)
+            elif [str(g) for g in got] == [str(Path(os.path.abspath(sp)))] or [str(g) for g in got] == [str(sp)]:
+                verdicts.add(False)
+            else:
+                raise _err(f"parse_paths({str(sp)!r}) = {got!r}: neither the resolved path nor the path as spelled")
+        if len(verdicts) != 1:
+            raise _err("parse_paths resolves some spellings and keeps others")
+        return verdicts.pop()
+    finally:
+        shutil.rmtree(tmp, ignore_errors=True)
+
+
 def hash_facts() -> list[str]:
     import extract
     sys.path.insert(0, str(extract.REPO / "src"))
@@ -200,6 +229,7 @@ def hash_facts() -> list[str]:
         if mt != "stat.st_mtime":
             raise _err(f"_get_state keys the memo with {mt!r}, not stat.st_mtime")
         cn = _collect_norm_facts()
+        pp = _parse_paths_fact()
     except Exception as e:
         if type(e).__name__ == "ExtractError":
             raise
@@ -226,5 +256,7 @@ def hash_facts() -> list[str]:
     L.append(f"def collectPlainAbsNorm : Bool := {extract.lean_bool(cn[('plain', True)])}")
     L.append(f"def collectNodeRelNorm : Bool := {extract.lean_bool(cn[('node', False)])}")
     L.append(f"def collectNodeAbsNorm : Bool := {extract.lean_bool(cn[('node', True)])}")
+    L.append("/-- `shared.parse_paths` resolves the `paths` argument (`Path(p).resolve()`: no `..`, no symbolic links) instead of keeping it as spelled. -/")
+    L.append(f"def parsePathsResolves : Bool := {extract.lean_bool(pp)}")
     L.append("")
     return L
